@@ -15,8 +15,33 @@ func Edit(w *World, t *tape.Tape, prof Profile) string {
 	g := &gen{t: t, w: w, p: prof, reg: map[string]string{}, used: map[string]string{}}
 	g.rebuild()
 	for try := 0; try < 4; try++ {
-		switch t.Intn(9) {
+		k := t.Intn(11)
+		if k == 9 {
+			k = 1 // remove a call: twice as likely
+		} else if k == 10 {
+			k = 0
+		}
+		switch k {
 		case 0: // add a call
+			if t.Chance(1, 3) {
+				// ... onto the source line of an existing call
+				var hosts []*Call
+				for _, h := range w.Calls {
+					if pairable(h) {
+						hosts = append(hosts, h)
+					}
+				}
+				if c := g.genCall(""); c != nil && len(hosts) > 0 && pairable(c) {
+					h := hosts[t.Intn(len(hosts))]
+					h.Form = 0
+					h.Pair = c
+					return "add-call-same-line " + w.FuncName(c) + " next to " + w.FuncName(h)
+				} else if c != nil {
+					w.Calls = append(w.Calls, c)
+					return "add-call " + w.FuncName(c)
+				}
+				continue
+			}
 			if c := g.genCall(""); c != nil {
 				w.Calls = append(w.Calls, c)
 				return "add-call " + w.FuncName(c)
@@ -24,6 +49,19 @@ func Edit(w *World, t *tape.Tape, prof Profile) string {
 		case 1: // remove a call
 			if len(w.Calls) > 0 {
 				i := t.Intn(len(w.Calls))
+				switch t.Intn(3) {
+				case 1:
+					i = len(w.Calls) - 1 // last in the sources
+				case 2:
+					// the call whose functions come last in derived.gen.go: plugins are
+					// generated longest prefix first, equal lengths in descending order
+					for j, c := range w.Calls {
+						pj, pi := w.prefixOf(c.Plugin), w.prefixOf(w.Calls[i].Plugin)
+						if len(pj) < len(pi) || (len(pj) == len(pi) && pj <= pi) {
+							i = j
+						}
+					}
+				}
 				name := w.FuncName(w.Calls[i])
 				w.Calls = append(w.Calls[:i:i], w.Calls[i+1:]...)
 				return "remove-call " + name
@@ -121,6 +159,9 @@ func (g *gen) rebuild() {
 	visit = func(c *Call) {
 		if c.ID > maxID {
 			maxID = c.ID
+		}
+		if c.Pair != nil {
+			visit(c.Pair)
 		}
 		var tys []*Ty
 		for _, a := range c.Args {
